@@ -48,7 +48,10 @@ class C17(XsProp):
                 body = ': f {C} 5 ;'
         else:
             fail = rng.choice([('+', '"a" 1 {C}'), ('/', '1 0 {C}'), ('assert', 'false {C}'), ('nth', '[ 1 ] 5 {C}'), ('neg', '"s" {C}'),
-                               ('assert-eq', '1 2 {C}')])
+                               ('assert-eq', '1 2 {C}'),
+                               # the failing cell is one that a later word backpatches
+                               ('if', '5 {C} 1 then 2'), ('if', '"s" {C} 1 else 2 then'), ('while', '0 begin 7 {C} 1 + repeat'), ('until', 'begin 7 {C}'),
+                               ('do', '"a" 0 {C} I loop')])
             cul, core = fail
             form = rng.random()
             if form < 0.3:
